@@ -19,7 +19,9 @@ simple("C06", "model_checking",
        "representative per combining class in use, Hangul L/V/T/LV/LVT, exclusion, singleton, non-starter decompositions, blockers), "
        "judged twice: directly, and 'as used' = through to_ascii on the strings the mapping step leaves unchanged; (3) Punycode: "
        "utf32_to_punycode on all strings <=5/6 over 11 code points, punycode_to_utf32 + verify_punycode on all strings <=6/8 over "
-       "{a,b,z,0,9,-,A,_}, decode(encode), overflow families (h basic code points + U+10FFFF for h=0..4300, digit runs <=18), vs RFC 3492 "
+       "{a,b,z,0,9,-,A,_}, decode(encode), overflow families (h basic code points + one or two code points at the top of the range for h=0..4300, "
+       "digit runs <=18) and a guard-boundary family of the decoder (m = 0..8 maximal digits followed by EVERY digit value and every pair of digit "
+       "values, alone and after 'a-' / 'ab-': 35,964 strings, also as xn-- labels through to_unicode and to_ascii), vs RFC 3492 "
        "with maxint in {2^31-1, 2^32-1, 2^62}; (4) composed to_ascii / to_unicode on all strings <=4 (quick) / <=4 over the full and 5 "
        "over a 19-token alphabet (thorough) over a 34-token alphabet Sigma_idna (one code point per Bidi class RFC 5893 distinguishes, "
        "ZWJ, ZWNJ, virama, Joining_Type D/L/R/T/U incl. N'Ko, Mongolian, Adlam, marks of two classes, the four dots, 'xn--', '-', upper case, "
